@@ -131,6 +131,10 @@ func execCLI(ctx context.Context, fx *respFixture, ctl, bin, ws string, s *Scena
 	return true, fmt.Sprintf("exit %d: %s", res.ExitCode, msg), nil
 }
 
+// cliOutConfigs are the out configurations of half B that are also run through the CLI.
+var cliOutConfigs = map[string]bool{"single": true, "shared": true, "disjoint": true, "nested-inner": true, "nested-outer": true, "zip": true,
+	"dir-then-zip-inside": true, "jar-inside-then-dir": true, "zip-jar": true}
+
 // runCLIResponses drives the response scenarios of half B through the CLI.
 func runCLIResponses(r *evid.Run, scratch, bin string, names []string) {
 	ctx := context.Background()
@@ -146,8 +150,8 @@ func runCLIResponses(r *evid.Run, scratch, bin string, names []string) {
 	var items []item
 	nconf := 0
 	for _, oc := range outConfigs {
-		if oc.label == "jar" || oc.label == "zip-shared" || oc.label == "shared-respelled" {
-			continue // covered on the seam (half B); every CLI run costs two process starts
+		if !cliOutConfigs[oc.label] {
+			continue // the others are covered on the seam (half B); every CLI run costs two process starts
 		}
 		nconf++
 		for _, n := range names {
@@ -223,6 +227,14 @@ func runCLIResponses(r *evid.Run, scratch, bin string, names []string) {
 		fixtures <- fx
 	})
 	r.Set("C_response_clause_counts", total.asMap())
+	r.Set("C_successful_runs_by_out_config", total.SuccessByConfig)
+	if !r.Expired() {
+		for label := range cliOutConfigs {
+			if total.SuccessByConfig[label] == 0 {
+				r.Incomplete("half C (responses): no run of out configuration " + label + " succeeded (configuration is vacuous)")
+			}
+		}
+	}
 	if !r.Expired() {
 		for name, n := range map[string]int{"duplicate demanded": total.MustDup, "insertion previous run demanded": total.MustInsPrev,
 			"insertion absent demanded": total.MustInsAbsent, "insertion applied": total.InsertionApplied, "plain written": total.PlainWritten} {
@@ -257,7 +269,7 @@ func runCLIRelVsAbs(r *evid.Run, scratch, bin string) {
 	}
 	defer func() { _ = os.Chdir(old) }()
 	st := &RespStats{}
-	for _, oc := range []outConfig{{"relative-vs-absolute-out", "rel-then-abs", []string{"o1", absToken + "/o1"}}} {
+	for _, oc := range []outConfig{{"relative-vs-absolute-out", "rel-then-abs", []string{"o1", absToken + "/o1"}, nil}} {
 		for _, name := range []string{"a", "a.b", "./a", "..", "../a"} {
 			for _, s := range scenariosFor(oc, name) {
 				s.Half = "C"
@@ -295,6 +307,8 @@ type CLIReqCase struct {
 	Sources   map[string]string       `json:"sources,omitempty"`
 	Targets   []string                `json:"targets"`
 	Plugins   []ReqConfig             `json:"plugins"`
+	Effective []ReqConfig             `json:"effective_plugins,omitempty"` // after the command-line override, when there is one
+	RunKind   string                  `json:"run_kind"`
 	SharedOut bool                    `json:"shared_out"`
 	Template  string                  `json:"template"`
 	Args      []string                `json:"args"`
@@ -359,9 +373,10 @@ func runCLIRequests(r *evid.Run, scratch, bin string, layoutList [][]string) {
 			items = append(items, item{gi, g, l})
 		}
 	}
-	r.Set("C_request_space", map[string]any{"dags_n3": len(dags), "layouts": len(layoutList), "runs_per_workspace": 8})
+	r.Set("C_request_space", map[string]any{"dags_n3": len(dags), "layouts": len(layoutList), "runs_per_workspace": 15})
 	total := &ReqStats{}
-	var runs, failedRuns int
+	var runs, failedRuns, grouped int
+	runsByKind := map[string]int{}
 	lock := make(chan struct{}, 1)
 	lock <- struct{}{}
 	r.ParallelFor(len(items), 0, func(ix int) {
@@ -390,17 +405,38 @@ func runCLIRequests(r *evid.Run, scratch, bin string, layoutList [][]string) {
 			}
 		}
 		st := &ReqStats{}
-		localRuns, localFailed := 0, 0
-		one := func(run int, tmask int, cfgs [2]ReqConfig, shared bool) {
+		localRuns, localFailed, localGrouped := 0, 0, 0
+		localRunsByKind := map[string]int{}
+		// one executes one `buf generate` run: plugin k of the template is cfgs[k]; override are extra command-line
+		// flags (--include-imports / --include-wkt), which replace the per-plugin settings of every plugin.
+		one := func(run int, kind string, tmask int, cfgs []ReqConfig, shared bool, override ...string) {
 			m := c.Model(tmask)
 			rec := filepath.Join(dir, fmt.Sprintf("rec%d", run))
 			base := filepath.Join(dir, fmt.Sprintf("out%d", run))
 			_ = os.MkdirAll(rec, 0o755)
 			script := filepath.Join(dir, "script.json")
 			_ = os.WriteFile(script, []byte(`{"per_file":true}`), 0o644)
-			outs := []string{"o1", "o2"}
-			if shared {
-				outs[1] = "o1"
+			outs := make([]string, len(cfgs))
+			for k := range cfgs {
+				outs[k] = fmt.Sprintf("o%d", k+1)
+				if shared {
+					outs[k] = "o1"
+				}
+			}
+			eff := append([]ReqConfig(nil), cfgs...)
+			for _, flag := range override {
+				for k := range eff {
+					switch flag {
+					case "--include-imports":
+						eff[k].IncludeImports = true
+					case "--include-imports=false":
+						eff[k].IncludeImports = false
+					case "--include-wkt":
+						eff[k].IncludeWKT = true
+					case "--include-wkt=false":
+						eff[k].IncludeWKT = false
+					}
+				}
 			}
 			var plugins []tmplPlugin
 			for k, cfg := range cfgs {
@@ -417,6 +453,7 @@ func runCLIRequests(r *evid.Run, scratch, bin string, layoutList [][]string) {
 			tmpl := filepath.Join(dir, fmt.Sprintf("buf.gen.%d.yaml", run))
 			_ = os.WriteFile(tmpl, []byte(tmplText), 0o644)
 			args := []string{"generate", ws, "--template", tmpl, "-o", base}
+			args = append(args, override...)
 			if tmask != 7 {
 				for _, p := range bufx.SortedKeys(m.Targets) {
 					args = append(args, "--path", filepath.Join(ws, p))
@@ -431,17 +468,23 @@ func runCLIRequests(r *evid.Run, scratch, bin string, layoutList [][]string) {
 				return
 			}
 			mk := func() *CLIReqCase {
-				cc := &CLIReqCase{Half: "C", Corpus: c, Sources: sources, Targets: bufx.SortedKeys(m.Targets), Plugins: cfgs[:], SharedOut: shared,
+				cc := &CLIReqCase{Half: "C", Corpus: c, Sources: sources, Targets: bufx.SortedKeys(m.Targets), Plugins: cfgs, RunKind: kind, SharedOut: shared,
 					Template: strings.ReplaceAll(tmplText, dir, "<dir>"), Args: args, ExitCode: res.ExitCode, Stderr: strings.ReplaceAll(res.Stderr, dir, "<dir>"),
 					Requests: map[string][]ReqSummary{}, Disk: listFiles(base)}
 				for id, reqs := range recorded {
 					cc.Requests[id] = summarize(reqs)
 				}
+				if len(override) > 0 {
+					cc.Effective = eff
+				}
 				return cc
 			}
 			if res.ExitCode != 0 {
 				localFailed++
-				filterErr := cfgs[0].filtered() || cfgs[1].filtered()
+				filterErr := false
+				for _, cfg := range cfgs {
+					filterErr = filterErr || cfg.filtered()
+				}
 				if pluginDidNotRun(res.Stderr) {
 					r.Incomplete("harness: plugin did not run: " + strings.ReplaceAll(res.Stderr, dir, "<dir>"))
 				} else if !filterErr {
@@ -450,7 +493,8 @@ func runCLIRequests(r *evid.Run, scratch, bin string, layoutList [][]string) {
 				return
 			}
 			var wantDisk []string
-			for k, cfg := range cfgs {
+			localRunsByKind[kind]++
+			for k, cfg := range eff {
 				id := fmt.Sprintf("P%d", k+1)
 				reqs := recorded[id]
 				CheckRequests(m, cfg, reqs, st, func(sig, what string) { r.Violate("C/"+sig, id+": "+what, mk()) })
@@ -463,7 +507,20 @@ func runCLIRequests(r *evid.Run, scratch, bin string, layoutList [][]string) {
 					}
 				}
 				if len(m.Imports)+len(m.Wkts) > 0 {
-					r.Distinct(fmt.Sprintf("C|%d|%v|%d|%d|%s", it.gi, it.layout, wkt, tmask, cfg))
+					if kind == "pair" {
+						r.Distinct(fmt.Sprintf("C|%d|%v|%d|%d|%s", it.gi, it.layout, wkt, tmask, cfg))
+					} else {
+						r.Distinct(fmt.Sprintf("C|%d|%v|%d|%d|%s|%s|%d/%d|%v", it.gi, it.layout, wkt, tmask, cfg, kind, k, len(cfgs), override))
+					}
+					// a plugin that shares its grouping key (strategy + type filters) with an earlier plugin of the
+					// template but asks for a different set of files, on an image where that makes a difference
+					for j := 0; j < k; j++ {
+						if eff[j].Strategy == cfg.Strategy && eff[j].IncludeType == cfg.IncludeType && eff[j].ExcludeType == cfg.ExcludeType &&
+							(eff[j].IncludeImports != cfg.IncludeImports || eff[j].IncludeWKT != cfg.IncludeWKT) {
+							localGrouped++
+							break
+						}
+					}
 				}
 			}
 			sort.Strings(wantDisk)
@@ -480,11 +537,11 @@ func runCLIRequests(r *evid.Run, scratch, bin string, layoutList [][]string) {
 			for k := 0; k < 3; k++ {
 				a := ReqConfig{Strategy: "all", IncludeImports: flags[k][0], IncludeWKT: flags[k][1]}
 				d := ReqConfig{Strategy: "directory", IncludeImports: flags[2-k][0], IncludeWKT: flags[2-k][1]}
-				pair := [2]ReqConfig{a, d}
+				pair := []ReqConfig{a, d}
 				if (ix+k)%2 == 1 {
-					pair = [2]ReqConfig{d, a}
+					pair = []ReqConfig{d, a}
 				}
-				one(run, tmask, pair, (k+ix/2)%2 == 0)
+				one(run, "pair", tmask, pair, (k+ix/2)%2 == 0)
 				run++
 			}
 		}
@@ -496,17 +553,63 @@ func runCLIRequests(r *evid.Run, scratch, bin string, layoutList [][]string) {
 				exc.MustGenerate = append(exc.MustGenerate, c.Path(i))
 			}
 		}
-		one(run, 7, [2]ReqConfig{inc, {Strategy: "all"}}, false)
+		one(run, "pair", 7, []ReqConfig{inc, {Strategy: "all"}}, false)
 		run++
-		one(run, 7, [2]ReqConfig{{Strategy: "directory", IncludeImports: true, IncludeWKT: true}, exc}, true)
+		one(run, "pair", 7, []ReqConfig{{Strategy: "directory", IncludeImports: true, IncludeWKT: true}, exc}, true)
+		run++
+		// ---- round 2: several plugins with ONE grouping key (strategy, types, exclude_types) that differ in the
+		// settings outside the key (include_imports, include_wkt, opt, out). The generator batches the image work
+		// per key; what each plugin is asked to generate must still follow that plugin's own settings.
+		// The three settings occur in every order over the work items (ix selects the permutation), so whichever
+		// member of a group a regression takes the settings from, some run has a member that disagrees with it.
+		perm := [][3]int{{0, 1, 2}, {0, 2, 1}, {1, 0, 2}, {1, 2, 0}, {2, 0, 1}, {2, 1, 0}}
+		group := func(strategy string, pm [3]int) []ReqConfig {
+			var out []ReqConfig
+			for _, f := range pm {
+				out = append(out, ReqConfig{Strategy: strategy, IncludeImports: flags[f][0], IncludeWKT: flags[f][1]})
+			}
+			return out
+		}
+		// one group of three, strategy all, a proper target subset (so that the image has non-WKT imports)
+		one(run, "group-all", sub, group("all", perm[ix%6]), ix%2 == 0)
+		run++
+		// one group of three, strategy directory
+		one(run, "group-directory", sub, group("directory", perm[(ix+it.gi+1)%6]), ix%2 == 1)
+		run++
+		// two groups of two whose members alternate in the template (a group is not a contiguous block)
+		ga, gd := group("all", perm[(ix+2)%6]), group("directory", perm[(ix+3)%6])
+		one(run, "group-interleaved", 7, []ReqConfig{ga[0], gd[0], ga[1], gd[1]}, false)
+		run++
+		one(run, "group-interleaved", sub, []ReqConfig{gd[2], ga[2], gd[0], ga[1]}, true)
+		run++
+		// a group that is held together by a type filter: the same `types:` twice with different settings,
+		// around an unfiltered plugin with the same strategy (a different key)
+		incA, incB := inc, inc
+		fa, fb := flags[perm[ix%6][0]], flags[perm[ix%6][1]]
+		incA.IncludeImports, incA.IncludeWKT = fa[0], fa[1]
+		incB.IncludeImports, incB.IncludeWKT = fb[0], fb[1]
+		one(run, "group-filtered", 7, []ReqConfig{incA, {Strategy: "directory", IncludeImports: true, IncludeWKT: true}, incB}, false)
+		run++
+		// the command-line override replaces the per-plugin settings of every member of a group
+		overrides := [][]string{{"--include-imports"}, {"--include-imports", "--include-wkt"}, {"--include-imports=false"}, {"--include-wkt=false"},
+			{"--include-imports", "--include-wkt=false"}, {"--include-imports=false", "--include-wkt=false"}}
+		one(run, "group-override", sub, group([]string{"all", "directory"}[(ix/6)%2], perm[(ix+4)%6]), ix%2 == 0, overrides[ix%6]...)
+		run++
+		one(run, "group-override", 7, group([]string{"directory", "all"}[(ix/6)%2], perm[(ix+5)%6]), ix%2 == 1, overrides[(ix+3)%6]...)
 		<-lock
 		total.add(st)
 		runs += localRuns
 		failedRuns += localFailed
+		grouped += localGrouped
+		for k, v := range localRunsByKind {
+			runsByKind[k] += v
+		}
 		lock <- struct{}{}
 		_ = os.RemoveAll(dir)
 	})
 	r.Set("C_request_runs", map[string]int{"runs": runs, "failed_runs_with_type_filter": failedRuns})
+	r.Set("C_request_successful_runs_by_kind", runsByKind)
+	r.Set("C_request_plugins_grouped_with_an_earlier_plugin_of_different_settings", grouped)
 	r.Set("C_request_clause_counts", map[string]int{
 		"targets_generated_exactly_once":               total.TargetsOnce,
 		"imports_generated_exactly_once":               total.ImportsOnce,
@@ -522,7 +625,9 @@ func runCLIRequests(r *evid.Run, scratch, bin string, layoutList [][]string) {
 	})
 	if !r.Expired() {
 		for name, n := range map[string]int{"imports generated once": total.ImportsOnce, "wkt generated once": total.WktOnce,
-			"shared import across requests": total.SharedImportAcrossRequests, "retention stripped": total.RetGenStripped} {
+			"shared import across requests": total.SharedImportAcrossRequests, "retention stripped": total.RetGenStripped,
+			"plugin grouped with an earlier plugin of different settings": grouped, "group runs with a command-line override": runsByKind["group-override"],
+			"group runs held together by a type filter": runsByKind["group-filtered"], "interleaved group runs": runsByKind["group-interleaved"]} {
 			if n == 0 {
 				r.Incomplete("half C (requests) never exercised: " + name)
 			}
